@@ -288,7 +288,7 @@ def len_post(num, ev):
     return [le(r, l), le(l, r)]
 
 
-reg(["core::slice::<impl [T]>::len", "common_traits::Sequence::len"], post=len_post)
+reg(["core::slice::<impl [T]>::len", "common_traits::Sequence::len", "std::vec::Vec::<T, A>::len", "alloc::vec::Vec::<T, A>::len"], post=len_post)
 
 
 def chunks_k(num, it_term):
